@@ -158,18 +158,35 @@ Section Facts.
     e_idraw e = [] \/ Some (e_idraw e) = reference_id H (e_ver e) (e_json e).
 
   Theorem event_id_redact e e' :
-    e_class e <> 1 -> cache_sound e -> redact_ev e = Some e' -> e_idraw e' = [] \/ e_redacted e = true ->
+    e_class e <> 1 -> cache_sound e -> redact_ev e = Some e' ->
     event_id H e' = event_id H e.
   Proof.
-    intros Hc Hs Hr Hid. unfold redact_ev in Hr.
+    intros Hc Hs Hr. unfold redact_ev in Hr.
     destruct (e_redacted e) eqn:Er; [inversion Hr; reflexivity|].
-    destruct Hid as [Hid|Hid]; [|discriminate].
     destruct (redact (e_ver e) (e_json e)) as [r|] eqn:Ered; [|discriminate].
-    inversion Hr; subst e'. simpl in Hid. unfold event_id. simpl.
-    apply N.eqb_neq in Hc. rewrite Hc. rewrite Hid.
+    inversion Hr; subst e'. unfold event_id, json_event_id. simpl.
+    apply N.eqb_neq in Hc. rewrite Hc.
     rewrite (reference_id_ignores_redaction _ _ _ Ered).
     destruct Hs as [Hs|Hs]; [rewrite Hs; reflexivity|].
     rewrite <- Hs. destruct (e_idraw e); reflexivity.
+  Qed.
+
+  (* an event of a hash-derived format that a parser built without being handed an ID, or that
+     Redact() rebuilt, carries no ID of its own: EventID() is the reference ID of its JSON *)
+  Theorem parsed_event_has_no_json_id class ver j red e :
+    class <> 1 -> parse_trusted_as class ver j red None = Some e -> e_idraw e = [].
+  Proof.
+    intros Hc Hp. unfold parse_trusted_as in Hp.
+    destruct ((class =? 0) || negb (decodes class j) || negb (room_check class j)); [discriminate|].
+    inversion Hp. unfold mk_parsed, json_event_id. simpl. apply N.eqb_neq in Hc. rewrite Hc. reflexivity.
+  Qed.
+
+  Theorem redacted_event_has_no_json_id e e' :
+    e_class e <> 1 -> e_redacted e = false -> redact_ev e = Some e' -> e_idraw e' = [].
+  Proof.
+    intros Hc Hn Hr. unfold redact_ev in Hr. rewrite Hn in Hr.
+    destruct (redact (e_ver e) (e_json e)); [|discriminate]. inversion Hr.
+    unfold json_event_id. simpl. apply N.eqb_neq in Hc. rewrite Hc. reflexivity.
   Qed.
 
   (* filling the cache is invisible *)
